@@ -545,8 +545,16 @@ package state
 //@ ensures[delete-cas-reports-mismatch] op.Verb == api.NodeDeleteCAS && !(old(nodeAt(op.Node.Node, op.Node.PeerName)) != nil && old(nodeAt(op.Node.Node, op.Node.PeerName).ModifyIndex) == old(op.Node.ModifyIndex)) ==> err != nil
 //@ ensures[get-missing-is-error] op.Verb == api.NodeGet && err == nil ==> len(res) == 1
 //@ func Store.txnService
-//@ trusted
+//@ props C05 C10
+//@ opt single-txn yes
 //@ results res, err
+//@ requires op != nil
+//@ ensures[never-commits] commits() == old(commits())
+//@ ensures[set-stores] op.Verb == api.ServiceSet && err == nil ==> serviceAt(op.Node, op.Service.ID, op.Service.PeerName) != nil
+//@ ensures[delete-removes] op.Verb == api.ServiceDelete && err == nil ==> serviceAt(op.Node, op.Service.ID, op.Service.PeerName) == nil
+//@ ensures[delete-cas-reports-mismatch] op.Verb == api.ServiceDeleteCAS && !(old(serviceAt(op.Node, op.Service.ID, op.Service.PeerName)) != nil && old(serviceAt(op.Node, op.Service.ID, op.Service.PeerName).ModifyIndex) == old(op.Service.ModifyIndex)) ==> err != nil
+//@ ensures[get-missing-is-error] op.Verb == api.ServiceGet && err == nil ==> serviceAt(op.Node, op.Service.ID, op.Service.PeerName) != nil
+//@ ensures[nodes-untouched] forall k string :: T_nodes(k) == old(T_nodes(k))
 //@ func Store.txnCheck
 //@ props C05 C10
 //@ opt single-txn yes
